@@ -89,7 +89,10 @@ Record tables := mk_tables {
   tb_flows : list marshal_flow;
   tb_crw : crw_shape;
   tb_sniff : list sniff_site;
-  tb_listeners : list listener_call }.
+  tb_listeners : list listener_call;
+  tb_tls_uses : list tls_use;
+  tb_tls_origin : list string;      (* arguments of the one transport.NewServerTLSConfig call *)
+  tb_tls_server_calls : list bool }. (* per tls.Server call inside the sniff: is it given the function's tlsConfig parameter *)
 
 Definition find_enc (T : tables) (file func : string) : option enc_site :=
   find (fun s => String.eqb (es_file s) file && String.eqb (es_func s) func) (tb_enc T).
@@ -384,6 +387,60 @@ Definition sniff_force (T : tables) (configured : bool) (l : lkind) : force_res 
       end
   end.
 
+(* ---------- which tls.Config each listener terminates TLS with ---------- *)
+(* fields a clone may set without touching the identity rule *)
+Definition harmless_tls_fields : list string := ["NextProtos"; "MinVersion"; "MaxVersion"]%string.
+
+(* does the configuration a site receives still carry ClientAuth / ClientCAs / Certificates of the origin *)
+Definition preserves_identity (e : tlscfg_expr) : bool :=
+  match e with
+  | TcOrigin => true
+  | TcClone fs => forallb (fun f => existsb (String.eqb f) harmless_tls_fields) fs
+  | TcUnknown _ => false
+  end.
+
+Definition tls_consumer (l : lkind) : option string :=
+  match l with
+  | LkQuic => Some "quic.ListenAddr"
+  | LkSsh => None                       (* in-process, no TLS *)
+  | _ => Some "sniff"                   (* HandleListener -> CheckAndEnableTLSServerConnWithTimeout -> tls.Server *)
+  end%string.
+
+(* the server policy (Model/TlsPolicy.v: new_server_tls) in force on listener l; None = not determined /
+   not the configured one *)
+Definition listener_policy (T : tables) (p : server_policy) (l : lkind) : option server_policy :=
+  match tls_consumer l with
+  | None => None
+  | Some cns =>
+      match filter (fun u => String.eqb (tu_consumer u) cns) (tb_tls_uses T) with
+      | [u] => if preserves_identity (tu_cfg u) &&
+                  (match l with LkQuic => true | _ => forallb (fun b => b) (tb_tls_server_calls T) end)
+               then Some p else None
+      | _ => None
+      end
+  end.
+
+Definition network_kinds : list lkind := [LkTcp; LkTlsMux; LkKcp; LkWebsocket; LkQuic].
+
+Definition ends_with_field (s f : string) : bool :=
+  let n := String.length s in let m := String.length f in
+  (m <=? n)%nat && String.eqb (String.substring (n - m) m s) f.
+
+(* every TLS-terminating site of the server is one of the two known consumers and receives the object built by
+   NewServerTLSConfig(cfg.Transport.TLS.CertFile, KeyFile, TrustedCaFile) itself or an identity-preserving clone *)
+Definition tlscfg_ok (T : tables) : bool :=
+  forallb (fun u => (String.eqb (tu_consumer u) "sniff" || String.eqb (tu_consumer u) "quic.ListenAddr") &&
+                    preserves_identity (tu_cfg u)) (tb_tls_uses T) &&
+  forallb (fun l => match tls_consumer l with
+                    | Some cns => (length (filter (fun u => String.eqb (tu_consumer u) cns) (tb_tls_uses T)) =? 1)%nat
+                    | None => false end) network_kinds &&
+  forallb (fun b => b) (tb_tls_server_calls T) && negb (length (tb_tls_server_calls T) =? 0)%nat &&
+  match tb_tls_origin T with
+  | [a; b; c] => ends_with_field a ".Transport.TLS.CertFile" && ends_with_field b ".Transport.TLS.KeyFile" &&
+                 ends_with_field c ".Transport.TLS.TrustedCaFile"
+  | _ => false
+  end.
+
 Definition sniffing_kinds : list lkind := [LkTcp; LkTlsMux; LkKcp; LkWebsocket].
 
 Definition lkind_eqb (a b : lkind) : bool :=
@@ -544,6 +601,6 @@ Definition enc_ok (T : tables) : bool :=
   forallb (enc_site_ok T) (tb_enc T) && pairs_ok T && (9 <=? Z.of_nat (length (tb_enc T))).
 
 Definition facts_ok (T : tables) : bool :=
-  auth_ok T && lits_ok T && writes_ok T && ctl_ok T && flows_ok T && enc_ok T && sniff_ok T.
+  auth_ok T && lits_ok T && writes_ok T && ctl_ok T && flows_ok T && enc_ok T && sniff_ok T && tlscfg_ok T.
 
 End Wire.
